@@ -268,6 +268,8 @@ def trace_labels(d, ob, res):
             it = threads[t][pos[t]]
             labels.extend(["LWaitPass %d" % t] * len(it["waits"]) + ["LEnter %d" % t, "LExitOk %d" % t] + ["LClose %d" % t] * len(it["closes"]) + ["LNext %d" % t])
             pos[t] += 1
+    for t in range(len(threads)):
+        run_silent(t, len(threads[t]))          # leading Value providers run as soon as the thread starts, without events
     for e in res["events"]:
         k = e["kind"]
         if k == "cancel":
